@@ -775,8 +775,33 @@ def x_go_admin():
         "tokenBridgeUpdateMinimalConsistencyLevel": [("req.NewConsistencyLevel", ">", "level_max")],
         "tokenBridgeUpdateRefundAddress": [("len(address)", ">", "refund_max")],
     }
+    # the body literal each function serializes: which request value goes into which field, through which conversion
+    literals = {
+        "adminGuardianSetUpgradeToVAA": ("BodyGuardianSetUpgrade", {"Keys": "addrs", "NewIndex": None}),
+        "adminUpdateMessageFeeToVAA": ("BodyUpdateMessageFee", {"NewMessageFee": "messageFee"}),
+        "adminTransferFeeToVAA": ("BodyTransferFee", {"Amount": "amount", "Recipient": "recipient"}),
+        "adminContractUpgradeToVAA": ("BodyContractUpgrade", {"Payload": "payload"}),
+        "tokenBridgeRegisterChain": ("BodyTokenBridgeRegisterChain", {"Module": "req.Module", "ChainID": "vaa.ChainID(req.ChainId)", "EmitterAddress": "emitterAddress"}),
+        "tokenBridgeUpgradeContract": ("BodyTokenBridgeUpgradeContract", {"Module": "req.Module", "Payload": "payload"}),
+        "tokenBridgeDestroyUnexecutedSequenceContracts": ("BodyTokenBridgeDestroyContracts", {"EmitterChain": "vaa.ChainID(req.EmitterChain)", "Sequences": "req.Sequences"}),
+        "tokenBridgeUpdateMinimalConsistencyLevel": ("BodyTokenBridgeUpdateMinimalConsistencyLevel", {"NewConsistencyLevel": "uint8(req.NewConsistencyLevel)"}),
+        "tokenBridgeUpdateRefundAddress": ("BodyTokenBridgeUpdateRefundAddress", {"NewRefundAddress": "address"}),
+    }
     for fn, expect in funcs.items():
         b = go_func_body(src, r'^func %s\(' % fn, fn)
+        lm = re.search(r'vaa\.(Body\w+)\{(.*?)\}\.Serialize\(\)\)', b, re.S)
+        if not lm:
+            raise Broken("%s: vaa.Body..{..}.Serialize() not found" % fn)
+        got = dict((k, " ".join(v.split())) for k, v in re.findall(r'(\w+):\s*([^\n]+),\n', lm.group(2) + "\n"))
+        wty, wfields = literals[fn]
+        if lm.group(1) != wty or set(got) != set(wfields) or any(v is not None and got[k] != v for k, v in wfields.items()):
+            raise Broken("%s serializes vaa.%s%s (expected vaa.%s%s)" % (fn, lm.group(1), got, wty, wfields))
+        if "NewIndex" in got:
+            mi = re.fullmatch(r'guardianSetIndex \+ (\d+)', got["NewIndex"])
+            if not mi:
+                raise Broken("%s: NewIndex is %r (expected guardianSetIndex + <n>)" % (fn, got["NewIndex"]))
+            out.append("(* %s: NewIndex: %s (uint32 arithmetic) *)\nDefinition go_adm_new_index (gsi : Z) : Z := (gsi + %s) mod 4294967296.\n" % (fn, got["NewIndex"], mi.group(1)))
+            info["new_index"] = got["NewIndex"]
         found = re.findall(r'if ([\w\.\(\)]+) (==|!=|>|>=|<|<=) ([\w\.]+) \{\s*return nil, ', b)
         found = [f for f in found if re.match(r'len\(|req\.', f[0])]
         if [(l, o) for l, o, _ in found] != [(l, o) for l, o, _ in expect]:
